@@ -147,10 +147,15 @@ type world struct {
 	recs   []*lisRec
 	lstack []*lisRec
 	lisErr string
+
+	hs *heldState // held-values batches (held.go): the word in progress
 }
 
 // host is the behaviour shared by every style: record what was observed, produce the results.
 func (w *world) host(u *unit, mod api.Module, obs []uint64) []uint64 {
+	if w.hs != nil {
+		return w.heldHost(u, mod, obs)
+	}
 	w.log = append(w.log, hostCall{u, obs})
 	if w.cbDepth > 0 && u == w.cbUnit {
 		w.cbDepth--
@@ -211,6 +216,14 @@ func defineHostFn(hb wazero.HostModuleBuilder, name string, sig *sigT, st styleT
 			obs[i] = mask(t, stack[i]) // api.DecodeI32/DecodeF32/... : only the low 32 bits are significant
 		}
 		res := core(mod, obs)
+		// the stack slice is what this host function holds: whatever it did meanwhile (nested calls into the guest),
+		// its parameters must still read the same
+		for i, t := range sig.P {
+			if g := mask(t, stack[i]); g != obs[i] {
+				onErr(fmt.Sprintf("%s: parameter %d (%s) of the stack slice given to the host function read %#x on entry and reads %#x after the nested call it made returned", hostStackChanged, i, tname(t), obs[i], g))
+				break
+			}
+		}
 		copy(stack, res) // results are already in the canonical encoding (32-bit values zero-extended)
 	}
 	switch st.Kind {
